@@ -446,12 +446,29 @@ def _frac(o):
     f = float(o)
     if math.isnan(f) or math.isinf(f):
         raise _NonFinite(f)
-    return Fraction(f)
+    return snap(f)
 
 
 class _NonFinite(Exception):
     def __init__(self, f):
         self.f = f
+
+
+_SNAP = {}
+
+
+def snap(f: float) -> Fraction:
+    """the real number a concrete float stands for in the reals model: the simplest rational with
+    denominator <= 10^6 if it is within 2^-50 (relative) of the float -- so that 8/24 computed in floating
+    point is 1/3 and not 6004799503160661/18014398509481984 -- else the float's exact binary value."""
+    r = _SNAP.get(f)
+    if r is None:
+        fr = Fraction(f)
+        s = fr.limit_denominator(10**6)
+        r = s if abs(s - fr) <= abs(fr) * Fraction(1, 2**50) else fr
+        if len(_SNAP) < 100000:
+            _SNAP[f] = r
+    return r
 
 
 def lift(o):
@@ -709,6 +726,26 @@ class SymReal:
 
     def is_constant(self):
         return is_const(self.n) and self.d is None
+
+    # numpy hands back the bare object for 0-d results of object arrays where a float array would give a
+    # numpy scalar: provide the scalar-like surface pyttb touches
+    ndim = 0
+    shape = ()
+    size = 1
+
+    def squeeze(self, *a, **k):
+        return self
+
+    def copy(self):
+        return self
+
+    def __getitem__(self, k):
+        if k is None or k == () or k is Ellipsis:
+            a = np.empty(1 if k is None else (), dtype=object)
+            a[...] = self
+            from . import npenv
+            return npenv.wrap(a) if k is None else self
+        raise IndexError("invalid index to scalar variable.")
 
     def eq_formula(self, o) -> Node:
         q = lift(o)
